@@ -263,10 +263,19 @@ def rule_hof_order(ctx: Ctx) -> None:
                 break
         # strict-improvement branch: score < hof[i][0]
         txt = norm(guard) if guard is not None else ""
+        # the inserted entry names the new score and the new circuit: self.hof.insert(i, (<score>, <circuit>.copy()))
+        ent = c.args[1] if len(c.args) > 1 else None
+        if not (isinstance(ent, ast.Tuple) and len(ent.elts) == 2):
+            raise AnalysisError(f"update_hof: inserted entry `{short(c)}` is not a (score, circuit) pair")
+        sc = norm(ent.elts[0])
+        ce = ent.elts[1]
+        while isinstance(ce, ast.Call) and isinstance(ce.func, ast.Attribute) and ce.func.attr in ("copy", "deepcopy"):
+            ce = ce.func.value
+        circ = norm(ce)
         strict = isinstance(guard, ast.Compare) and len(guard.ops) == 1 and (
-            (isinstance(guard.ops[0], ast.Lt) and norm(guard.left) == "score" and norm(guard.comparators[0]) == f"self.hof[{iv}][0]") or
-            (isinstance(guard.ops[0], ast.Gt) and norm(guard.comparators[0]) == "score" and norm(guard.left) == f"self.hof[{iv}][0]"))
-        tie = "len(circuit.dag.nodes) < len(self.hof" in txt and any(
+            (isinstance(guard.ops[0], ast.Lt) and norm(guard.left) == sc and norm(guard.comparators[0]) == f"self.hof[{iv}][0]") or
+            (isinstance(guard.ops[0], ast.Gt) and norm(guard.comparators[0]) == sc and norm(guard.left) == f"self.hof[{iv}][0]"))
+        tie = f"len({circ}.dag.nodes) < len(self.hof" in txt and any(
             isinstance(a, ast.If) and "isclose" in norm(a.test) and any(c is x for b in a.body for x in ast.walk(b)) for a in _anc(c))
         if pos_ok and (strict or tie):
             ctx.ok("hof.order", m, c, what="insert at the scanned position under `score < hof[i][0]` / tie-break")
